@@ -469,6 +469,12 @@ EmitNeverWaitsENABLED ==
        /\ call[k].pc = "pre" => ENABLED (EmitStaticReject(k) \/ EmitPrecheckReject(k) \/ EmitPrecheckPass(k))
   /\ Held => \E k \in DOMAIN call : lock = k /\ call[k].pc \in {"l1", "l2"}
 
+\* ... in particular after Close(): once the client is closed and the connection goroutine (which runs
+\* the writer) has exited, the mutex is free or held by an emitter inside its own lock section - an
+\* emitter that passed its pre-check before Close and reaches Lock() afterwards is never stranded.
+EmitNeverWaitsAfterClose ==
+  (TRUE \in closed /\ cpc = "done") => (Held => lock \in DOMAIN call /\ call[lock].pc \in {"l1", "l2"})
+
 AlignmentLostOnlyAfterFault == "AlignmentLost" \notin bad
 NoRecordPanic == "RecordPanic" \notin bad
 
@@ -479,6 +485,6 @@ QueueOrdered ==
 DropsOrdered ==
   \A i \in 1..Len(drops) : drops[i].count >= 1 /\ (i < Len(drops) => drops[i].first + drops[i].count < drops[i + 1].first)
 
-Safety == StreamWellFormed /\ ReceiverAlignment /\ FollowupSameConn /\ EmitNeverWaits
+Safety == StreamWellFormed /\ ReceiverAlignment /\ FollowupSameConn /\ EmitNeverWaits /\ EmitNeverWaitsAfterClose
           /\ AlignmentLostOnlyAfterFault /\ NoRecordPanic /\ QueueOrdered /\ DropsOrdered
 =============================================================================
